@@ -802,3 +802,51 @@ def must_hold_at(fn, transfer, edge_gen=None):
             return None
         return run_block(pos[0], inn[pos[0]], pos[1])
     return at
+
+
+def may_states(fn, init, step, edge=None):
+    """Generic forward may-analysis over small finite state sets.  init: iterable of states at function entry;
+    step(state, node) -> iterable of successor states for one CFG element; edge(p, s, state) -> iterable of states
+    on the CFG edge p->s (default: unchanged).  Returns (inn, at): inn[block] and at(node) = set of states that
+    can hold just before node is evaluated (None if node is not in the CFG)."""
+    cfg = fn.cfg
+    reach = cfg.reachable()
+    inn = {b: set() for b in cfg.blocks}
+    inn[cfg.entry] = set(init)
+    work = [cfg.entry]
+
+    def run(b, st, upto=None):
+        for e in cfg.blocks[b]["e"][:upto]:
+            x = fn.nodes.get(e) if isinstance(e, int) else None
+            if x is not None:
+                nxt = set()
+                for s_ in st:
+                    nxt |= set(step(s_, x))
+                st = nxt
+        return st
+    while work:
+        b = work.pop()
+        st = run(b, set(inn[b]))
+        for s_ in cfg.succ[b]:
+            if s_ < 0 or s_ not in reach:
+                continue
+            ns = set()
+            for x in st:
+                ns |= set(edge(b, s_, x)) if edge is not None else {x}
+            if not ns <= inn[s_]:
+                inn[s_] |= ns
+                work.append(s_)
+    where = fn.where()
+
+    def at(node):
+        pos = where.get(node["i"])
+        if pos is None:
+            for a in fn.ancestors(node):
+                if a["i"] in where:
+                    pos = where[a["i"]]
+                    break
+        if pos is None:
+            return None
+        return run(pos[0], set(inn[pos[0]]), pos[1])
+    at.out = lambda b: run(b, set(inn[b]))
+    return inn, at
